@@ -96,6 +96,25 @@ Theorem C18_shared_future_as_task : forall fk ms b drv os, fk <> KLazy ->
 Proof. exact shared_future_as_task. Qed.
 Print Assumptions C18_shared_future_as_task.
 
+(* known findings (known/C18.json), model-side witnesses: the code as it is, not what the statement asks for *)
+Theorem C18_fresh_shared_error_leaks_reader : forall h1 h2,
+  map (option_map user_frames)
+      (shared_observations KErrorFuture EFresh HSync [[(h1, false)]; [(h2, false)]; []])
+  = [Some [FCaller; FReader 0 0]; Some [FCaller; FReader 1 0; FReader 0 0];
+     Some [FCaller; FReader 1 0; FReader 0 0]]%Z.
+Proof. exact fresh_shared_error_leaks_reader. Qed.
+Print Assumptions C18_fresh_shared_error_leaks_reader.
+
+Theorem C18_awaited_taskless_error_loses_frames : forall drv,
+  map (option_map user_frames) (shared_observations KErrorFuture EPrepared drv [[(HAwait, false)]])
+  = [Some [FCaller; FReader 0 0]] /\
+  map (option_map user_frames) (shared_observations KLazy EFresh drv [[(HAwait, false)]])
+  = [Some [FCaller; FReader 0 0]] /\
+  map (option_map user_frames) (shared_observations KErrorFuture EPrepared drv [[(HSync, false)]])
+  = [Some [FCaller; FReader 0 0; PREP_SITE]].
+Proof. exact awaited_taskless_error_loses_frames. Qed.
+Print Assumptions C18_awaited_taskless_error_loses_frames.
+
 (* (c) asynq stack *)
 
 (* for every chain of tasks, whatever frame state (live / kept after a failure / gone) and source
